@@ -465,6 +465,31 @@ class Evaluator(object):
             if self.truth(self.expr(e.test, env, fi)):
                 return self.expr(e.body, env, fi)
             return self.expr(e.orelse, env, fi)
+        if isinstance(e, (ast.ListComp, ast.GeneratorExp, ast.DictComp)) and len(e.generators) == 1:
+            gen = e.generators[0]
+            try:
+                it = self.expr(gen.iter, env, fi)
+            except AnalysisError:
+                it = None
+            elems = None
+            if isinstance(it, K) and isinstance(it.v, (tuple, list)):
+                elems = [K(x) for x in it.v]
+            elif isinstance(it, L):
+                elems = list(it.elts)
+            if elems is not None:
+                env2 = dict(env)
+                out_l, out_d = [], {}
+                for x in elems:
+                    self.assign(gen.target, x, env2, fi)
+                    if all(self.truth(self.expr(c, env2, fi)) for c in gen.ifs):
+                        if isinstance(e, ast.DictComp):
+                            kk = self.expr(e.key, env2, fi)
+                            if not isinstance(kk, K):
+                                raise AnalysisError("non-constant key in a dict comprehension")
+                            out_d[kk.v] = self.expr(e.value, env2, fi)
+                        else:
+                            out_l.append(self.expr(e.elt, env2, fi))
+                return D(out_d) if isinstance(e, ast.DictComp) else L(out_l)
         if isinstance(e, ast.BinOp):
             a = self.expr(e.left, env, fi)
             b = self.expr(e.right, env, fi)
@@ -599,6 +624,18 @@ class Evaluator(object):
             return Sym("type(%s)" % getattr(args[0], "label", "v"), truthy=True)
         if fname == "list" and len(args) == 1 and isinstance(args[0], L):
             return L(list(args[0].elts))
+        if fname == "reversed" and len(args) == 1 and isinstance(args[0], L):
+            return L(list(reversed(args[0].elts)))
+        if fname == "dict" and len(args) == 1 and isinstance(args[0], L):
+            dd = {}
+            for pair in args[0].elts:
+                pe = pair.elts if isinstance(pair, L) else ([K(x) for x in pair.v] if isinstance(pair, K) and isinstance(pair.v, tuple) else None)
+                if pe is None or len(pe) != 2 or not isinstance(pe[0], K):
+                    raise AnalysisError("dict() of a non-pair sequence")
+                dd[pe[0].v] = pe[1]
+            return D(dd)
+        if fname == "dict" and len(args) == 1 and isinstance(args[0], D):
+            return D(dict(args[0].items))
         if fname == "len" and len(args) == 1 and isinstance(args[0], (D, L)):
             return K(len(args[0].items) if isinstance(args[0], D) else len(args[0].elts))
         if fname == "len" and len(args) == 1 and isinstance(args[0], K):
